@@ -213,6 +213,32 @@ ORDINARY = [
     let kept2 = { let src = std::vec![1u8, 2, 3]; a.alloc_slice_copy(&src) };
     let kept3 = { let src = std::string::String::from("hi"); BString::from_str_in(&src, &a) };
     touch(&kept); touch(&kept2); touch(&kept3);"""),
+    ("copy_outlives_source_alloc_str", """
+    let a = Bump::new(); let kept = { let src = std::string::String::from("hello"); a.alloc_str(&src) }; touch(&kept);"""),
+    ("copy_outlives_source_alloc_slice_copy", """
+    let a = Bump::new(); let kept = { let src = std::vec![1u8, 2, 3]; a.alloc_slice_copy(&src) }; touch(&kept);"""),
+    ("copy_outlives_source_alloc_slice_clone", """
+    let a = Bump::new(); let kept = { let src = std::vec![std::string::String::from("x")]; a.alloc_slice_clone(&src) }; touch(&kept);"""),
+    ("copy_outlives_source_string_from_str_in", """
+    let a = Bump::new(); let kept = { let src = std::string::String::from("hi"); BString::from_str_in(&src, &a) }; touch(&kept);"""),
+    ("copy_outlives_source_from_utf8_lossy_in", """
+    let a = Bump::new(); let kept = { let src = std::vec![104u8, 105, 255]; BString::from_utf8_lossy_in(&src, &a) }; touch(&kept);"""),
+    ("copy_outlives_source_from_utf16_in", """
+    let a = Bump::new(); let kept = { let src = std::vec![104u16, 105]; BString::from_utf16_in(&src, &a).unwrap() }; touch(&kept);"""),
+    ("copy_outlives_source_push_str", """
+    let a = Bump::new(); let mut kept = BString::new_in(&a); { let src = std::string::String::from("hi"); kept.push_str(&src); kept.insert_str(0, &src); kept.extend(src.chars()); } touch(&kept);"""),
+    ("copy_outlives_source_vec_extend", """
+    let a = Bump::new(); let mut kept = Vec::new_in(&a);
+    { let src = std::vec![1u8, 2]; kept.extend_from_slice(&src); kept.extend_from_slice_copy(&src); kept.extend(src.iter().copied()); kept.extend_from_slices_copy(&[&src[..], &src[..]]); }
+    touch(&kept);"""),
+    ("copy_outlives_source_vec_from_iter_in", """
+    let a = Bump::new(); let kept = { let src = std::vec![1u8, 2]; Vec::from_iter_in(src.iter().copied(), &a) };
+    let kept2 = { let src = std::vec![1u8, 2]; src.iter().copied().collect_in::<Vec<u8>>(&a) }; touch(&kept); touch(&kept2);"""),
+    ("copy_outlives_source_box_and_fill", """
+    let a = Bump::new(); let kept = { let src = std::vec![1u8, 2]; BBox::<[u8]>::from_iter_in(src.iter().copied(), &a) };
+    let kept2 = { let src = std::vec![3u8, 4]; a.alloc_slice_fill_iter(src.iter().copied()) };
+    let kept3 = { let src = 5u8; a.alloc_slice_fill_copy(3, src) }; let kept4 = { let src = std::string::String::from("z"); a.alloc_slice_fill_clone(2, &src) };
+    touch(&kept); touch(&kept2); touch(&kept3); touch(&kept4);"""),
     ("many_kinds_alive_at_once", """
     let a = Bump::new();
     let x = a.alloc(1u32); let s = a.alloc_str("s"); let mut v = Vec::new_in(&a); v.push(1u8);
